@@ -190,7 +190,8 @@ example : lookup "ringqp.Ring.AtLevel" = some [("RingP", .nested), ("RingQ", .ne
 def incomplete_rows : List String := (table.filter fun (_, r) => !r.complete).map (·.1)
 
 theorem incomplete_rows_eq : incomplete_rows =
-    ["ring.Ring.AtLevel"] := by decide   -- `level` is what AtLevel is meant to change
+    ["ring.Ring.AtLevel", "ring.Ring.AtLevel[view-of-view]"] := by decide   -- `level` is what AtLevel is meant to change;
+    -- the siblings `ConjugateInvariantRing` / `StandardRing` of a view keep its level (rows `…[AtLevel(1)]`: `config`)
     -- (before fix C10-7 also "mpckks.MaskedLinearTransformationProtocol.WithParams": `noise` was dropped)
 
 end Lattigo.Props.C10
